@@ -11,7 +11,7 @@ class _RL(dict):
 UNIT_RLIMIT = _RL({"div_small": 80, "mul_redc": 80})      # unit -> --rlimit (Verus default is 10; 5x head-room over the measured maximum)
 UNIT_TIMEOUT = {"knuth": 1500, "addmul": 900, "mul_redc": 1200}     # unit -> seconds
 UNIT_EXPECT = {       # unit -> minimum number of verified functions on the unchanged tree (vacuity guard)
-    "core": 31, "add": 29, "kernels": 79, "addmul": 71, "addmul_n": 73, "mul": 51, "divd": 45, "div_small": 235, "knuth": 145, "mul_redc": 124, "basics": 22, "pow": 38, "divw": 54, "modular": 63, "spigot": 44, "gcd": 21, "forward": 57, "invring": 36, "bitlen": 70, "shifts": 131, "recip_table": 2, "gcdext": 64, "gcdw": 33, "bits": 60, "conv": 31, "lehmer": 31, "logs": 27,
+    "core": 31, "add": 29, "kernels": 79, "addmul": 71, "addmul_n": 73, "mul": 51, "divd": 45, "div_small": 235, "knuth": 145, "mul_redc": 124, "basics": 22, "pow": 38, "divw": 54, "modular": 63, "spigot": 44, "gcd": 24, "forward": 57, "invring": 36, "bitlen": 70, "shifts": 131, "recip_table": 2, "gcdext": 67, "gcdw": 36, "bits": 60, "conv": 31, "lehmer": 37, "logs": 27,
 }
 
 COMMON_TRUST = [
@@ -260,6 +260,40 @@ PROPS = {
         trusted=COMMON_TRUST,
         not_decided=[],
     ),
+    "C16": dict(
+        level="other",
+        level_text="Kani proves per width, for ALL canonical values: the encoder of each integration emits exactly the format's reference encoding written in the harness from the format definition (minimal big-endian RLP string for "
+                   "alloy-rlp / fastrlp 0.3 / 0.4 and the rlp crate's stream at 8 bits; SCALE fixed = length prefix + little-endian bytes; SCALE compact in its four modes; little-endian SSZ / borsh; canonical DER INTEGER content; "
+                   "BYTES big-endian bytes in binary serde; limb bytes for bytemuck / primitive-types), the advertised length / size hint / max_encoded_len agrees with the bytes produced and never makes encoding fail, decoding the "
+                   "encoding returns the value, and where the codec crate encodes u64/u128 itself the bytes are identical",
+        level_note="per width (7, 8, 16, 60, 64, 65, 128, some 129/192), not all widths: the integrations are glue around third-party crates that Verus cannot see; the third-party encoders/decoders are EXECUTED symbolically by CBMC, "
+                   "not specified. NOT decided (measured > 150 s or > 6 GB): the rlp crate's encoder above 8 bits, DER to_der/from_der end to end (the ruint part encode_value/decode_value is covered), num-bigint, postgres, "
+                   "serde human-readable (JSON hex string: core::fmt), ark-ff (not in the harness crate's feature set). Known finding: SCALE fixed encoding of Uint<64> differs from u64's (length-prefixed): changing it changes the wire format",
+        technique="Kani contract harnesses on the compiled crate with the codec crates enabled (feature codecs), complete per width",
+        units=[],
+        kani=dict(features="codecs", quick=hs("c16", None, r"_w(128|129|192)$|rlp_stream"), thorough=hs("c16"), timeout_quick=3000, timeout_thorough=7200,
+                  bounds="widths 7,8,16,60,64,65 (quick) + 128,129,192 (thorough); all canonical values"),
+        known_findings={"scale_fixed_equals_primitive": ["c16::kf_c16_scale_fixed_equals_primitive_w64"]},
+        explanation="harness-level contracts; reference encodings written from the format definitions",
+        trusted=COMMON_TRUST + ["Kani stubs: alloc::fmt::format (error text), ptr_rotate / BytesMut::reserve_inner proved unreachable in c16_rlp_stream_w8"],
+        not_decided=["rlp crate encoder above 8 bits", "DER to_der / from_der end to end", "num-bigint", "postgres", "serde human-readable", "ark-ff"],
+    ),
+    "C17": dict(
+        level="other",
+        level_text="Kani proves per width, for ALL input byte strings of length 0..BYTES+4: each decoder (alloy-rlp, fastrlp 0.3/0.4, rlp crate decode/as_val, SCALE fixed and compact, SSZ, borsh, DER decode_value and the "
+                   "TryFrom<IntRef/UintRef/AnyRef> forms, binary serde) terminates without panicking and returns Ok exactly for the inputs that denote a value < 2^BITS under the format (strict spec for the canonical-form decoders, "
+                   "for which re-encoding the result reproduces the consumed bytes; lenient spec for the rlp crate and SCALE), the Ok value being canonical and the denoted one; an RLP list is rejected; the byte-slice parsers "
+                   "underneath are C08's, the string parsers C09's",
+        level_note="BOUNDED in input length (BYTES+4; longer inputs take the same length-check exits) and per width (7, 8, 16, 60, 64, 65); SCALE at 60-65 bits with concrete first bytes (all single-byte-mode prefixes; compact: modes 0-2 and the "
+                   "4/8/16-byte big modes - the generic big-mode arm does not finish); postgres from_sql, serde human-readable, num-bigint not covered (cost); the third-party decoders are executed, not specified",
+        technique="Kani contract harnesses over all inputs up to a stated length per width (feature codecs)",
+        units=[],
+        kani=dict(features="codecs", quick=hs("c17", None, r"_w(64|16)$|_p\d"), thorough=hs("c17"), timeout_quick=3000, timeout_thorough=7200,
+                  bounds="all byte strings of length 0..BYTES+4 at widths 7,8,60,65 (quick) + 16,64 (thorough)"),
+        explanation="decode specs written from the format definitions; c17_spec_* prove they invert c16's encode specs",
+        trusted=COMMON_TRUST + ["Kani stub: alloc::fmt::format (error text)"],
+        not_decided=["inputs longer than BYTES+4", "SCALE compact generic big-mode arm", "postgres from_sql", "serde human-readable", "num-bigint"],
+    ),
     "C18": dict(
         level="other",
         level_text="Kani proves per width, over ALL f64 (and f32) bit patterns partitioned into range harnesses, the exact classification and value of TryFrom<f64>/<f32> "
@@ -325,8 +359,8 @@ PROPS = {
         level_text="Verus proves, for every width: the gcd loop (initial swap, Lehmer step via apply, Euclidean fallback, termination) returns Euclid's function sgcd, which is proved to be the greatest common divisor "
                    "(divides both; every common divisor divides it); gcd_extended returns g = gcd and cofactors with a*x - b*y = g (sign) resp. b*y - a*x = g modulo 2^BITS (exact integer Bezout rows, stored cofactors as residues, "
                    "final negation and swap); lcm returns Some(a*b/gcd) exactly when that value is < 2^BITS (Some(0) if either is 0) and None otherwise; the Uint wrappers forward; LehmerMatrix::from_u64 (the extended Euclid on two words "
-                   "that `from` uses for operands of at most 64 bits) returns the identity for b = 0 and otherwise a matrix satisfying the whole Lehmer contract (exact map to a later remainder pair, determinant, row order, entries <= a, no word overflow). The loops are modular over the ASSUMED "
-                   "contract of LehmerMatrix::from/apply, which contains the property's last sentence; Kani checks gcd/lcm/gcd_extended by enumeration at 3-4 bits",
+                   "that `from` uses for operands of at most 64 bits) returns the identity for b = 0 and otherwise a matrix satisfying the whole Lehmer contract (exact map to a later remainder pair, determinant, row order, entries <= a, no word overflow); LehmerMatrix::apply evaluates the signed map modulo 2^BITS without panicking for such matrices. The loops are modular over the ASSUMED "
+                   "contract of LehmerMatrix::from (for operands above 64 bits: the prefix constructions), which contains the property's last sentence; Kani checks gcd/lcm/gcd_extended by enumeration at 3-4 bits",
         level_note="the Lehmer matrix construction (from_u64, from_u64_prefix, from_u128_prefix, from: Jebelean's exactness conditions over up to 46 symbolic u64 divisions) is ASSUMED, not derived - a change inside matrix.rs "
                    "is noticed only by the tiny-width Kani enumerations (which never reach the >64-bit prefix paths): hence level 'other', not 'proof'. lcm uses a declared rewrite of Option::unwrap_or_default to "
                    "unwrap_or(<Uint as Default>::default()), with Default::default extracted and proved to be ZERO",
@@ -335,7 +369,7 @@ PROPS = {
         kani=dict(features=None, quick=hs("c10", r"gcd|lcm"), thorough=hs("c10", r"gcd|lcm"), bounds="3-4 bits, all pairs"),
         explanation="gcd: invariant gcd(a, b) = gcd(a0, b0), a >= b; decreases b. gcd_extended: a = S0*A + T0*B, b = S1*A + T1*B over the integers, stored s/t = S/T mod 2^BITS",
         trusted=COMMON_TRUST,
-        not_decided=["LehmerMatrix::from (dispatch) / from_u64_prefix / from_u128_prefix / compose (assumed contract; from_u64 is proved)", "LehmerMatrix::apply (assumed: evaluates the signed map modulo 2^BITS)"],
+        not_decided=["LehmerMatrix::from (dispatch) / from_u64_prefix / from_u128_prefix / compose (assumed contract; from_u64 and apply are proved)"],
     ),
     "C19": dict(
         level="other",
